@@ -343,7 +343,15 @@ def validate_evidence(ev):
         pass
 
 
-def finish(prop, tier, seed, t0, res, my_violations, coverage, assumptions, engine_failed=None):
+def mix_seed(seed, n):
+    return int(hashlib.sha256(("%d/%d" % (seed, n)).encode()).hexdigest()[:12], 16)
+
+
+def finish_keyed(prop, tier, seed, t0, my_violations, coverage, assumptions, engine_failed, keyfn):
+    finish(prop, tier, seed, t0, None, my_violations, coverage, assumptions, engine_failed, keyfn)
+
+
+def finish(prop, tier, seed, t0, res, my_violations, coverage, assumptions, engine_failed=None, keyfn=None):
     """Known-findings matching, replay files, evidence, exit code."""
     known = load_known()
     printed_known = set()
@@ -354,7 +362,7 @@ def finish(prop, tier, seed, t0, res, my_violations, coverage, assumptions, engi
         for tag in v["tags"]:
             if not tag.startswith(prop + "."):
                 continue
-            key = violation_key(v["kind"], tag, v.get("cfg", v.get("journal", "")), v.get("detail", ""))
+            key = keyfn(v) if keyfn else violation_key(v["kind"], tag, v.get("cfg", v.get("journal", "")), v.get("detail", ""))
             if (prop, key) in known:
                 matched = (key, known[(prop, key)])
             else:
